@@ -114,7 +114,17 @@ def lint(proto: Proto) -> int:
     """Run default linter on given proto.
     Returns number of warning reported.
     """
-    return Linter().lint(proto)
+    try:
+        return Linter().lint(proto)
+    except RecursionError:
+        # Too deeply nested to walk: report it, don't crash.
+        warning(
+            LintWarning(
+                message="definitions too deeply nested to lint",
+                filepath=proto.filepath,
+            )
+        )
+        return 1
 
 
 # Rule Implementations
